@@ -30,6 +30,8 @@ class Fn:
         self.body = body if body is not None else []
         self.segments = segments          # generator functions: list of statement lists, split at the yields
         self.handlers = []                # static handler table (start, end, envc), filled by layout()
+        self.fields = []                  # classes: call statements `f(1)` used as field initialisers
+        self.base = None                  # classes: the parent class (derived constructor calls super(1) first)
         self.laid_out = False
 
 
@@ -147,6 +149,8 @@ def js_body(stmts, probe_ids):
             out.append("%s.%s(1);" % (s[2], s[3]))
         elif k == "promise":
             out.append("Promise.resolve(1).then(%s);" % s[2].name)
+        elif k == "promise_construct":
+            out.append("Promise.resolve(1).then(Reflect.apply.bind(undefined, Reflect.construct, undefined, [%s, []]));" % s[2].name)
         else:
             raise ValueError(k)
     return " ".join(out)
@@ -160,8 +164,10 @@ def js_fn(fn, probe_ids):
     if fn.kind == "rec":
         return "function %s(a){ %sprobe(%d); return %s(a); }" % (fn.name, locs, fn.probe_id, fn.name)
     if fn.kind == "class":
-        return "class %s { constructor(%s){ %s%s } } globalThis.%s = %s;" % (
-            fn.name, params, locs, js_body(fn.body, probe_ids), fn.name, fn.name)
+        fields = " ".join("x%d = %s;" % (i, js_call_expr(f)) for i, f in enumerate(fn.fields))
+        return "class %s%s { %s constructor(%s){ %s%s%s } } globalThis.%s = %s;" % (
+            fn.name, (" extends " + fn.base.name) if fn.base else "", fields, params, "super(1); " if fn.base else "", locs,
+            js_body(fn.body, probe_ids), fn.name, fn.name)
     if fn.kind == "gen":
         segs = []
         for i, seg in enumerate(fn.segments):
@@ -213,6 +219,44 @@ class Walk:
             out = NORMAL
         return a, out
 
+    def init_racts(self, cls):
+        """InitializeInstanceElements of cls: every field initialiser is a nested host [[Call]] of an anonymous function"""
+        parts, out = [], NORMAL
+        for i, f in enumerate(cls.fields):
+            b, out = self.call_expr(f, False, 3)
+            parts.append("(hcall 0 R:%s__f%d () 0 0 (%s)) (propagate 1)" % (cls.name, i, " ".join(b)))
+            if out != NORMAL:
+                break
+        return " ".join(parts), out
+
+    def class_body(self, cls):
+        """constructor body of cls; a derived constructor first calls super(1) and then initialises its own fields"""
+        acts = []
+        if cls.base:
+            n, out = self.new_form(cls.base, 1)
+            acts += ["(pc 1)", "(push 4)", n]
+            if out != NORMAL:
+                return acts, out
+            acts.append("(pop 1)")
+            ini, out = self.init_racts(cls)
+            acts.append("(rust (%s))" % ini)
+            if out != NORMAL:
+                return acts, out
+        b, out = self.frame_body(cls)
+        return acts + b, out
+
+    def new_form(self, cls, argc, host=False):
+        """function_construct of class cls step by step: (init racts before the frame exists, then the body)"""
+        if cls.base:
+            ini, out = "", NORMAL
+        else:
+            ini, out = self.init_racts(cls)
+        if out == NORMAL:
+            b, out = self.class_body(cls)
+        else:
+            b = []
+        return "(%s %d %s %s 0 0 (%s) (%s))" % ("hnew" if host else "new", argc, self.regs(cls), self.hs(cls), ini, " ".join(b)), out
+
     def call_expr(self, s, as_stmt, pc=None):
         _, info, fn, args, mode = s
         pc = info.get("pc", pc)
@@ -229,6 +273,12 @@ class Walk:
         if fn.kind == "class" and mode != "new":
             acts.append("(callerr 1)")
             return acts, THROW
+        if mode == "new" and fn.kind == "class":
+            n, out = self.new_form(fn, argc)
+            acts += ["(push 1)", n]
+            if out == NORMAL and as_stmt:
+                acts.append("(pop 1)")
+            return acts, out
         if mode == "new":
             acts.append("(push 1)")
         if fn.kind == "gen":
@@ -245,6 +295,8 @@ class Walk:
         """a nested/top-level JsObject::call / construct on fn: one ract"""
         if fn.kind == "class" and not construct:
             return "(hcallerr %d 1)" % argc, THROW
+        if fn.kind == "class":
+            return self.new_form(fn, argc, host=True)
         if fn.kind == "gen":
             b, out = ["(gencreate)"], NORMAL
             self.ngens += 1
@@ -345,6 +397,9 @@ class Walk:
             if out == NORMAL:
                 acts.append("(pop 1)")
             return acts, out
+        if k == "promise_construct":
+            self.jobs.append(("construct", s[2]))
+            return [pc, "(push 3)", "(callnative 1 0 ())", "(pop 1)", "(push 6)", "(callnative 4 0 ())", "(pop 1)", "(push 3)", "(callnative 1 0 ())", "(pop 1)"], NORMAL
         if k == "promise":
             self.jobs.append(s[2])
             return [pc, "(push 3)", "(callnative 1 0 ())", "(pop 1)", "(push 3)", "(callnative 1 0 ())", "(pop 1)"], NORMAL
@@ -403,10 +458,24 @@ class Builder:
         self.new_defs.append(fn)
         return fn
 
-    def new_class(self, depth):
+    def new_class(self, depth, want=NORMAL, allow_base=True):
+        """a class; `want` != NORMAL: constructing it fails (a field initialiser, the parent, or the body)"""
+        base = None
+        where = self.rng.choice(["field", "field", "body", "base"]) if want != NORMAL else None
+        if allow_base and depth < 3 and (where == "base" or self.rng.random() < 0.3):
+            base = self.new_class(depth + 1, want if where == "base" else NORMAL, allow_base=False)
+        elif where == "base":
+            where = "field"
+        fields = []
+        for _ in range(self.rng.randrange(0, 3)):
+            fields.append(mk("call", self.new_fn(depth + 1, NORMAL), ["lit"], "call"))
+        if where == "field":
+            fields.insert(self.rng.randrange(0, len(fields) + 1), mk("call", self.new_fn(depth + 1, want), ["lit"], "call"))
         name = self.fresh("C")
         fn = Fn(name, "class", self.rng.randrange(0, 3), self.rng.randrange(0, 3))
-        fn.body = self.stmts(depth + 1, NORMAL, in_function=True)
+        fn.base, fn.fields = base, fields
+        fn.where = where
+        fn.body = [s for s in self.stmts(depth + 1, want if where == "body" else NORMAL, in_function=True) if s[0] != "return" or not base]
         self.new_defs.append(fn)
         return fn
 
@@ -453,6 +522,8 @@ class Builder:
                 return mk("loop")
             if r < 0.62:
                 return mk("finlimit")
+            if depth < 3 and r < 0.72:
+                return mk("call", self.new_class(depth, LIMIT), ["lit"] * self.rng.randrange(0, 3), "new")
             if depth < 4:
                 if r < 0.8:
                     return self.call_stmt(depth, LIMIT)
@@ -463,6 +534,11 @@ class Builder:
         # THROW
         if depth >= 4 or r < 0.25:
             return mk("throw")
+        if depth < 3 and r < 0.35:
+            c = self.new_class(depth, THROW)
+            if self.rng.random() < 0.5:
+                return mk("call", c, ["lit"] * self.rng.randrange(0, 3), "new")
+            return mk("rconstruct", c, self.rng.randrange(0, 3))
         if r < 0.55:
             return self.call_stmt(depth, THROW)
         if r < 0.65:
@@ -480,6 +556,8 @@ class Builder:
         r = self.rng.random()
         if depth >= 4 or r < 0.3:
             return self.probe()
+        if r < 0.36 and depth < 3:
+            return mk("call", self.new_class(depth), ["lit"] * self.rng.randrange(0, 3), "new")
         if r < 0.5:
             return self.call_stmt(depth, NORMAL)
         if r < 0.6:
@@ -498,8 +576,10 @@ class Builder:
             name = self.fresh("it")
             self.gen_names.append(name)
             return mk("gencreate", g, self.rng.randrange(0, 3), name)
-        if self.rich:
+        if self.rich and r < 0.975:
             return mk("promise", self.new_fn(depth, self.rng.choice([NORMAL, NORMAL, THROW])))
+        if self.rich:
+            return mk("promise_construct", self.new_class(depth, self.rng.choice([NORMAL, THROW, THROW])))
         return self.probe()
 
     def stmts(self, depth, want, in_function, in_gen=False):
@@ -597,6 +677,30 @@ class Builder:
         e.first_probe = first[1]["id"]
         return e
 
+    def entry_defclass(self, want):
+        """a script that only defines a class whose construction fails in a field initialiser (or in its parent's)"""
+        self.nmain += 1
+        main = "main%d" % self.nmain
+        where_rng = self.rng
+        cls = None
+        for _ in range(20):
+            self.new_defs = []
+            cls = self.new_class(2, want)
+            if cls.where in ("field", "base"):
+                break
+        defs = self.finish_defs()
+        for f in defs:
+            layout(f)
+        text = self.script_text(defs, [])
+        e = Entry("eval " + esc(text), "(eval R:%s () 0 0 1 ())" % main, NORMAL, "eval-ok", defs, main)
+        self.register(defs)
+        return e, cls
+
+    def entry_construct(self, cls, argc=0):
+        ract, out = self.walk.host_call(cls, argc, True)
+        cat = "construct-init-" + {NORMAL: "ok", THROW: "throw", LIMIT: "limit"}[out]
+        return Entry("construct %s %d" % (cls.name, argc), ract, out, cat)
+
     def entry_decl_fail(self):
         self.nmain += 1
         main = "main%d" % self.nmain
@@ -616,6 +720,8 @@ class Builder:
         ract, out = self.walk.host_call(fn, argc, construct)
         if fn.kind == "class" and not construct:
             cat = "call-class"
+        elif fn.kind == "class" and out != NORMAL and getattr(fn, "where", None) in ("field", "base"):
+            cat = "construct-init-" + {THROW: "throw", LIMIT: "limit"}[out]
         else:
             cat = ("construct-" if construct else "call-") + {NORMAL: "ok", THROW: "throw", LIMIT: "limit"}[out]
         return Entry("%s %s %d" % ("construct" if construct else "call", fn.name, argc), ract, out, cat)
@@ -647,7 +753,12 @@ class Builder:
         while queue:
             fn = queue.pop(0)
             before = len(self.walk.jobs)
-            r, out = self.walk.host_call(fn, 1, False)
+            if isinstance(fn, tuple):
+                # the callback is a bound Reflect.apply: builtins only, no bytecode frame around the [[Construct]]
+                inner, out = self.walk.host_call(fn[1], 0, True)
+                r = "(hcallnative 4 ((hcallnative 2 (%s (propagate 1))) (propagate 1)))" % inner
+            else:
+                r, out = self.walk.host_call(fn, 1, False)
             # jobs enqueued while this one ran go to the back of the queue
             queue += self.walk.jobs[before:]
             del self.walk.jobs[before:]
@@ -663,11 +774,21 @@ class Builder:
         return Entry("jobs", ract, out_all, "jobs-" + ("limit" if out_all == LIMIT else "ok"))
 
 
-def history(rng, n_entries, rlimit, slimit, looplimit, rich=True, fail_rate=0.45):
-    """returns (ops, entries): ops[0] creates the context; entries[i] belongs to ops[i+1]"""
+def history(rng, n_entries, rlimit, slimit, looplimit, rich=True, fail_rate=0.45, burst=0):
+    """returns (ops, entries): ops[0] creates the context; entries[i] belongs to ops[i+1].
+    burst > 0: after a third of the history, one class whose field initialiser throws is constructed `burst` times in a
+    row directly from the host (the context has to survive that many failed constructions)"""
     b = Builder(rng, rlimit, slimit, looplimit, rich)
     entries = []
-    while len(entries) < n_entries:
+    burst_at = n_entries // 3 if burst else -1
+    while len(entries) < n_entries + (burst + 1 if burst else 0):
+        if len(entries) == burst_at:
+            e, cls = b.entry_defclass(THROW)
+            entries.append(e)
+            for _ in range(burst):
+                entries.append(b.entry_construct(cls))
+            burst_at = -1
+            continue
         r = rng.random()
         e = None
         if r < 0.45 or not b.fns:
